@@ -29,9 +29,9 @@ ASSUMPTIONS = [
     'order among attributes / namespace nodes of one element is irrelevant here (paths name them)',
 ]
 FLOORS = {'rt:pi': (0.03, 'rt:node'), 'rt:pos>1': (0.08, 'rt:node'), 'rt:namespaced-name': (0.05, 'rt:node'),
-          'rt:text': (0.10, 'rt:node'), 'rt:name-starts-with-xpath-word/element': (0.005, 'rt:node'),
+          'rt:text': (0.10, 'rt:node'), 'rt:name-starts-with-xpath-word/element': (0.003, 'rt:node'),
           'rt:name-starts-with-xpath-word/attribute': (0.02, 'rt:node'), 'rt:name-starts-with-xpath-word/pi': (0.005, 'rt:node'),
-          'rt:name-starts-with-xpath-word/namespace': (0.01, 'rt:node'), 'rt:namespace-name-begins-with-number': (0.02, 'rt:node'), 'rt:parser-with-default-namespace': (0.5, 'rt:node'),
+          'rt:name-starts-with-xpath-word/namespace': (0.01, 'rt:node'), 'rt:namespace-prefix-is-kind-test-name': (0.01, 'rt:node'), 'rt:namespace-name-begins-with-number': (0.02, 'rt:node'), 'rt:parser-with-default-namespace': (0.5, 'rt:node'),
           'fr:fragment-with-same-named-top-level-elements': (0.15, 'fr:fragment'),
           'fr:under-later-same-named-top-level-element': (0.05, 'fr:node'),
           'sc:attribute-defaulted': (0.12, 'sc:node'), 'sc:whitespace-only-text-in-element-only-content': (0.08, 'sc:node'), 'sc:default-or-fixed-attribute-set-explicitly': (0.08, 'sc:node'),
@@ -40,7 +40,9 @@ FLOORS = {'rt:pi': (0.03, 'rt:node'), 'rt:pos>1': (0.08, 'rt:node'), 'rt:namespa
 
 FN = 'http://www.w3.org/2005/xpath-functions'
 NS_ARGS = [None, {'p': 'urn:p'}, {'': 'urn:d', 'p': 'urn:p', 'q': 'urn:q'}, {'q': 'urn:q', '': 'urn:d'},
-           {'for.each': 'urn:kw1', 'div-x': 'urn:kw3', 'union': 'urn:kw5', 'p': 'urn:p'}, {'if.x': 'urn:kw2', 'eq.x': 'urn:kw4', 'to1': 'urn:kw6'}]
+           {'for.each': 'urn:kw1', 'div-x': 'urn:kw3', 'union': 'urn:kw5', 'p': 'urn:p'}, {'if.x': 'urn:kw2', 'eq.x': 'urn:kw4', 'to1': 'urn:kw6'},
+           {'node': 'urn:kw9', 'p': 'urn:p', 'namespace-node': 'urn:kw10'}, {'text': 'urn:kw11', 'comment': 'urn:kw12', 'element': 'urn:kw14'},
+           {'item': 'urn:kw17', 'node': 'urn:kw9', 'map': 'urn:kw19', 'attribute': 'urn:kw15'}]
 
 _cfg = st.fixed_dictionaries({
     'backend': st.sampled_from(['et', 'lxml']),
@@ -53,7 +55,7 @@ _cfg = st.fixed_dictionaries({
 
 
 # three quarters of the element names stay a/b (same-name siblings, default-namespace twins), the rest starts with an XPath word (for.each, div-x, if, to1 ...)
-_KW = gx.KEYWORD_NAMES
+_KW = gx.KEYWORD_NAMES + gx.KIND_TEST_NAMES * 6        # the bare kind-test names get extra weight
 _KWSET = frozenset(_KW)
 _ELEM_POOL = ('a', 'b') * (len(_KW) * 3 // 2) + _KW
 _ATTR_POOL = gx.ATTR_LOCALS * (len(_KW) // 3) + _KW
@@ -276,6 +278,8 @@ def judge_roundtrip_one(spec, cfg, rec: Recorder | None = None) -> list[Disc]:
                 if rn.name[1] in '0123456789.':
                     classes.append('rt:namespace-name-begins-with-number')
             nm = (rn.name or '').rpartition('}')[2] if kind in ('element', 'attribute', 'pi', 'namespace') else ''
+            if kind == 'namespace' and nm in gx.KIND_TEST_NAMES and len(rn.parent.nss) >= 3:
+                classes.append('rt:namespace-prefix-is-kind-test-name')
             if nm in _KWSET or nm in gx.KEYWORD_PREFIXES:
                 classes.append('rt:name-starts-with-xpath-word')
                 classes.append(f'rt:name-starts-with-xpath-word/{kind}')
